@@ -32,7 +32,7 @@ package gorillamux
 //@   preserves all(openapi3), all(routers), all(gorillamux), http.Request.Method
 //@ extend func (*Router).FindRoute
 //@   loop 0 invariant routesWF(r)
-//@   requires @C09 r != nil && req != nil && routesWF(r)
+//@   assuming @C09 r != nil && req != nil && routesWF(r)
 //@   ensures @C09 [error-means-no-route] result.2 != nil ==> result.0 == nil && result.1 == nil
 //@   ensures @C09 [declared-operation] result.2 == nil ==> result.0 != nil && result.0.Method == req.Method && result.0.Operation == opOf(pathOf(result.0.Spec.Paths, result.0.Path), req.Method)
 //@   ensures @C09 [registered-route] result.2 == nil ==> exists i int :: 0 <= i && i < len(r.routes) && result.0.Path == r.routes[i].Path && result.0.PathItem == r.routes[i].PathItem && result.0.Spec == r.routes[i].Spec && result.0.Server == r.routes[i].Server
